@@ -304,7 +304,7 @@ class SolverIR:
 
 def _carry_like(v, name):
     if isinstance(v, Q):
-        return Q(v.kind, Rat.atom(name), None)
+        return Q(v.kind, Rat.atom(name), U(sym=name))
     if isinstance(v, N):
         return N(Rat.atom(name), v.py)
     return Dyn(Rat.atom(name))
